@@ -14,8 +14,13 @@ mkdir -p $M
 rsync -a --delete --exclude target --exclude .git /repo/ $M/repo/
 # rsync restores the original mtimes of files the previous mutant changed; cargo's
 # freshness check is mtime based, so touch them or the stale mutated build survives
-if [ -f $M/last_patched ]; then while read f; do [ -f "$M/repo/$f" ] && touch "$M/repo/$f"; done < $M/last_patched; fi
+# (every file EVER patched in this slot, not just the previous one: a crate that is built in a
+# feature variant only one check uses — c20's py-bindings, c15's verif-hooks — keeps its stale
+# artifact across any number of runs of other checks)
+touch $M/all_patched
+while read f; do [ -f "$M/repo/$f" ] && touch "$M/repo/$f"; done < $M/all_patched
 grep '^+++ b/' "$PATCH" | sed 's#^+++ b/##' | cut -f1 > $M/last_patched
+cat $M/last_patched >> $M/all_patched; sort -u -o $M/all_patched $M/all_patched
 # VERIF_HARNESS_SRC: run an older snapshot of the harness (pre-strengthening measurements)
 rsync -a --delete --exclude target ${VERIF_HARNESS_SRC:-/verif/harness}/ $M/h/
 find $M/h -name Cargo.toml | xargs sed -i "s#/repo/#$M/repo/#g"
